@@ -18,7 +18,7 @@ RULE = (
     "file order, value x factor (rel 1e-12), units attribute, constants once as group attrs with "
     "the enum label, header attrs present iff the field is non-blank; missing and unexpected "
     "leaves are discrepancies. Non-trivial: >= 2 lines."
-    " One case in four is judged on the tree returned by an open that also writes the index cache. Stage 'in-place-pairs': two products with the same file names at the same root, one after the other, both judged. A fifth of the cases inject a transient I/O error (the 1st..4th read of an image file fails once with OSError during the open): the open may fail, a returned tree is complete."
+    " One case in four is judged on the tree returned by an open that also writes the index cache. Stage 'in-place-pairs': two products with the same file names at the same root, one after the other, both judged. A fifth of the cases inject a transient I/O error (the 1st..4th read of an image file fails once with OSError during the open): the open may fail, a returned tree is complete. Three cases in five run with the process time zone set away from UTC."
 )
 ASSUMPTIONS = [
     "layout tables for the image descriptor and both line records (frozen)",
@@ -60,6 +60,8 @@ def cases(draw):
         "via_cache": draw(st.booleans()),
         # the n-th read of the first image file fails once with OSError during the open (None: no fault)
         "io_error": draw(st.sampled_from([None, None, None, None, None, 1, 2, 3, 4])),
+        # time zone of the process (POSIX TZ strings); the files carry UTC instants
+        "tz": draw(st.sampled_from([None, None, "PST8", "JST-9", "NPT-5:45"])),
         "policy": draw(st.sampled_from(["decoy", "decoy", "blank"])),
         "vseed": draw(st.integers(0, 2**32 - 1)),
     }
@@ -79,6 +81,7 @@ def classify(case):
         labels.append("create_cache")
     elif case.get("io_error"):
         labels.append("transient-read-error")
+    labels.append(f"tz={case.get('tz')}")
     inst = case["instant"]
     if inst["doy"] in (60, 366) or inst["ms"] == 86_399_999:
         labels.append("calendar-boundary")
@@ -86,6 +89,11 @@ def classify(case):
 
 
 def run_case(case):
+    with harness.process_tz(case.get("tz")):
+        return run_case_in_zone(case)
+
+
+def run_case_in_zone(case):
     spec = common.spec_from(case)
     files, info = product.build_product(spec)
     out = []
